@@ -47,7 +47,7 @@ CHECKS = {
             H("c04.VH_dns_tcp", {"L": 16}, {"L": 20}, opts=C04_OPTS, covers=["match returned"], validate=False),
             H("c04.VH_dns_udp", {"L": 16}, {"L": 20}, opts=C04_OPTS, covers=["match returned"], validate=False),
             H("c04.VH_dns_rules", {"L": 14, "NQ": 1}, {"L": 14, "NQ": 2}, opts=C04_OPTS, covers=["match returned"], validate=False, env_only=True),
-            H("c04.VH_dns_rules_both", {"L": 14, "NQ": 1}, {"L": 14, "NQ": 2}, opts=C04_OPTS, covers=["match returned"], validate=False, env_only=True),
+            H("c04.VH_dns_rules_both", {"L": 14, "NQ": 1}, {"L": 14, "NQ": 1}, opts=C04_OPTS, covers=["match returned"], validate=False, env_only=True),
             # handlers that parse remote input before any matcher-approved route: the PROXY protocol handler on its three header kinds
             H("c01.VH_step_proxyproto", {"params": {"READS": 1, "OFFSET0": 1, "MAXB": 200, "MAXD": 100, "ROUNDS": 2}}, {"params": {"READS": 1, "OFFSET0": 1, "MAXB": 5000, "MAXD": 1000, "ROUNDS": 2}, "timeout_ms": 60000}, covers=["recorder ran"], validate=False),
             H("c04.VH_http_ishttp", {"L": 24}, {"L": 64}, opts=C04_OPTS, covers=["match returned"]),
